@@ -450,3 +450,118 @@ func SwapStrings(v reflect.Value, a, b string) (reflect.Value, int) {
 	walk(c, func() {})
 	return c, n
 }
+
+// CollideInts rebuilds v with one pair of neighbouring integers (a, b) - two elements of a slice or array, or two
+// consecutive fields of a struct - replaced by (a-1, b+31): a different value with the same hash under every
+// 31*h+x fold. n is the number of pairs changed (at most one per container).
+func CollideInts(v reflect.Value) (reflect.Value, int) {
+	c := Rebuild(v, RebuildOpt{})
+	n := 0
+	wide := func(k reflect.Kind) bool {
+		switch k {
+		case reflect.Int, reflect.Int64, reflect.Int32, reflect.Uint, reflect.Uint64, reflect.Uint32:
+			return true
+		}
+		return false
+	}
+	// shift moves one unit of weight 31 from a to b if both stay representable
+	shift := func(a, b reflect.Value) bool {
+		switch a.Kind() {
+		case reflect.Int, reflect.Int64, reflect.Int32:
+			av := a.Int()
+			if a.OverflowInt(av-1) || av-1 > av {
+				return false
+			}
+			a.SetInt(av - 1)
+		default:
+			av := a.Uint()
+			if av == 0 {
+				return false
+			}
+			a.SetUint(av - 1)
+		}
+		switch b.Kind() {
+		case reflect.Int, reflect.Int64, reflect.Int32:
+			bv := b.Int()
+			if b.OverflowInt(bv+31) || bv+31 < bv {
+				return false
+			}
+			b.SetInt(bv + 31)
+		default:
+			bv := b.Uint()
+			if b.OverflowUint(bv+31) || bv+31 < bv {
+				return false
+			}
+			b.SetUint(bv + 31)
+		}
+		return true
+	}
+	var walk func(x reflect.Value, commit func())
+	walk = func(x reflect.Value, commit func()) {
+		x = Settable(x)
+		switch x.Kind() {
+		case reflect.Ptr:
+			if !x.IsNil() {
+				walk(x.Elem(), commit)
+			}
+		case reflect.Slice, reflect.Array:
+			if x.Kind() == reflect.Slice && x.IsNil() {
+				return
+			}
+			if wide(x.Type().Elem().Kind()) {
+				for i := 0; i+1 < x.Len(); i++ {
+					a, b := Settable(x.Index(i)), Settable(x.Index(i+1))
+					sa, sb := reflect.New(a.Type()).Elem(), reflect.New(b.Type()).Elem()
+					sa.Set(a)
+					sb.Set(b)
+					if shift(a, b) {
+						n++
+						commit()
+						return
+					}
+					a.Set(sa)
+					b.Set(sb)
+				}
+				return
+			}
+			for i := 0; i < x.Len(); i++ {
+				walk(x.Index(i), commit)
+			}
+		case reflect.Map:
+			if x.IsNil() {
+				return
+			}
+			for _, k := range sortedKeys(x) {
+				k := k
+				tmp := reflect.New(x.Type().Elem()).Elem()
+				deepAssign(tmp, x.MapIndex(k))
+				walk(tmp, func() { x.SetMapIndex(k, tmp); commit() })
+			}
+		case reflect.Struct:
+			for i := 0; i+1 < x.NumField(); i++ {
+				fa, fb := x.Type().Field(i), x.Type().Field(i+1)
+				if fa.Name == "_" || fb.Name == "_" || !wide(fa.Type.Kind()) || !wide(fb.Type.Kind()) {
+					continue
+				}
+				a, b := Settable(x.Field(i)), Settable(x.Field(i+1))
+				sa, sb := reflect.New(a.Type()).Elem(), reflect.New(b.Type()).Elem()
+				sa.Set(a)
+				sb.Set(b)
+				if shift(a, b) {
+					n++
+					commit()
+					return
+				}
+				a.Set(sa)
+				b.Set(sb)
+			}
+			for i := 0; i < x.NumField(); i++ {
+				if x.Type().Field(i).Name != "_" {
+					walk(x.Field(i), commit)
+				}
+			}
+		}
+	}
+	walk(c, func() {})
+	return c, n
+}
